@@ -76,9 +76,41 @@ def timing_refs(n, g, inf):
     return out
 
 
+def rand_contact_digraph(rng, n, dens):
+    return rand_digraph(rng, n, dens, False)
+
+
+def directed_samples(seed, n, cnt_rule, cnt_typed, cnt_timing, inf=5):
+    """seeded DRULE / DTYPED / DTIMING scenarios on a DIRECTED contact network with n nodes"""
+    rng = pyrandom.Random(1000003 * seed + 1709 + n)
+    dens = (0.25, 0.5, 0.75, 1.0)
+    rule, typed, timing = [], [], []
+    for i in range(cnt_rule):
+        g = rand_contact_digraph(rng, n, rng.choice(dens))
+        rule.append({"kind": "DRULE", "n": n, "src": {"g": g, "t": sorted([u, v, rng.random() < 0.6] for (u, v) in S.dir_edges(g))}})
+    ty = (1, 2)
+    for i in range(cnt_typed):
+        g = rand_contact_digraph(rng, n, rng.choice(dens))
+        typed.append({"kind": "DTYPED", "n": n, "src": {"g": g, "xi": [rng.choice(ty) for _ in range(n)],
+                                                        "zeta": [rng.choice(ty) for _ in range(n)],
+                                                        "tab": sorted([a, b, rng.random() < 0.6] for a in ty for b in ty)}})
+    vals = (1, 2, 3, inf)
+    for i in range(cnt_timing):
+        g = rand_contact_digraph(rng, n, rng.choice(dens))
+        timing.append({"kind": "DTIMING", "n": n, "inf": inf,
+                       "src": {"g": g, "dur": [rng.choice(vals) for _ in range(n)],
+                               "delay": sorted([u, v, rng.choice(vals)] for (u, v) in S.dir_edges(g))}})
+    jobs = []
+    for nm, scs in (("DRULE", rule), ("DTYPED", typed), ("DTIMING", timing)):
+        if scs:
+            jobs.append(("%s sampled directed contact networks N=%d" % (nm, n), "GIVEN",
+                         {"n": n, "inf": inf, "given": dedupe(scs), "workers": 4}))
+    return jobs
+
+
 def sampled_jobs(seed):
     rng = pyrandom.Random(1000003 * seed + 17)
-    jobs = []
+    jobs = directed_samples(seed, 4, 20000, 20000, 20000) + directed_samples(seed, 5, 8000, 0, 8000)
     for n, cnt in ((5, 30000), (6, 8000)):
         scs = []
         for i in range(cnt):
@@ -150,8 +182,18 @@ def plan(tier, seed):
         ("TYPED all graphs x types x tables N=3", "TYPED", {"n": 3, "types": (1, 2), "workers": 4}),
         ("TIMING all graphs x durations x delays N=3", "TIMING", {"n": 3, "vals": (1, 2, INF3), "inf": INF3, "workers": 4}),
     ]
+    # DIRECTED contact networks (G.neighbors = successors): every arc set on 3 nodes, a seeded sample on 4
+    jobs += [
+        ("DRULE all digraphs x tables N=3", "DRULE", {"n": 3, "workers": 2}),
+        ("DTIMING all digraphs x durations x delays N=3", "DTIMING", {"n": 3, "vals": (1, 2), "inf": INF3, "workers": 4}),
+    ]
+    if tier == "quick":
+        jobs += directed_samples(seed, 4, 2500, 2500, 0)
     if tier == "thorough":
         jobs += [
+            ("DTYPED all digraphs x types x tables N=2, 3 types", "DTYPED", {"n": 2, "types": (1, 2, 3), "walk": True, "workers": 4}),
+            ("DTYPED all digraphs x types x tables N=3", "DTYPED", {"n": 3, "types": (1, 2), "workers": 6}),
+            ("DTIMING all digraphs x durations x delays N=2", "DTIMING", {"n": 2, "vals": (1, 2, 3, 4), "inf": 4, "walk": True, "workers": 1}),
             ("BOND all graphs x outcomes N=2", "BOND", {"n": 2, "probs": P7, "walk": True, "workers": 1}),
             ("BOND all graphs x outcomes N=3", "BOND", {"n": 3, "probs": P7, "walk": True, "workers": 1}),
             ("RULE all graphs x tables N=2", "RULE", {"n": 2, "walk": True, "workers": 1}),
@@ -181,10 +223,16 @@ def run_jobs(jobs, par):
 
 
 def _cost(job):
+    """approximate number of scenarios of a job (the TLC cost grows with it)"""
     name, fam, kw = job
     if fam == "GIVEN":
         return len(kw["given"])
-    return {"DG": 2, "BOND": 3, "RULE": 5, "TYPED": 6, "TIMING": 7}[fam] ** kw["n"]
+    n = kw["n"]
+    up, dp = n * (n - 1) // 2, n * (n - 1)
+    v, t = len(kw.get("vals", (1, 2))), len(kw.get("types", (1, 2)))
+    return {"DG": 2 ** (dp + (n if kw.get("loops") else 0)), "BOND": 3 ** up * len(kw.get("probs", (1,))),
+            "RULE": 5 ** up, "TYPED": 2 ** up * t ** (2 * n) * 2 ** (t * t), "TIMING": v ** n * (1 + v * v) ** up,
+            "DRULE": 3 ** dp, "DTYPED": 2 ** dp * t ** (2 * n) * 2 ** (t * t), "DTIMING": v ** n * (1 + v) ** dp}[fam]
 
 
 # ----------------------------------------------------------------------------
@@ -227,9 +275,13 @@ def bind(chk, name, recs, stats):
                 raise MachineryFailure("BOND group with %d outcomes for %d edges" % (len(grp), m))
         items = list(groups.values())
         absorb(chk, name, S.fork_map(S.check_bond, items), len(items))
-    if kinds & {"RULE", "TYPED"}:
-        items = [r for r in recs if r["kind"] in ("RULE", "TYPED")]
+    if kinds & {"RULE", "TYPED", "DRULE", "DTYPED"}:
+        items = [r for r in recs if r["kind"] in ("RULE", "TYPED", "DRULE", "DTYPED")]
+        stats["directed_contact"] += sum(1 for r in items if r["kind"] in S.BASE and S.dir_edges(r["src"]["g"]) != set((v, u) for u, v in S.dir_edges(r["src"]["g"])))
         absorb(chk, name, S.fork_map(S.check_rule, items), len(items))
+    if "DTIMING" in kinds:
+        items = [r for r in recs if r["kind"] == "DTIMING"]
+        absorb(chk, name, S.fork_map(S.check_timing, items), len(items))
     if "TIMING" in kinds:
         items = [r for r in recs if r["kind"] == "TIMING"]
         absorb(chk, name, S.fork_map(S.check_timing, items), len(items))
@@ -268,7 +320,7 @@ def replay(chk, path):
     for r in recs:
         if S.scenario_key(r) == S.scenario_key(sc):
             print("  specification: H = %r, admissible (|In|,|Out|) = %r" % (r["adj"], r["adm"]))
-    stats = {"scenarios": 0, "no_edges": 0, "ties": 0, "several_answers": 0, "dperc": 0}
+    stats = {"scenarios": 0, "no_edges": 0, "ties": 0, "several_answers": 0, "dperc": 0, "directed_contact": 0}
     if sc["kind"] == "TIMING":
         # only the replayed scenario is bound (the references serve the probe)
         by = {S.scenario_key(r): r for r in recs}
@@ -299,14 +351,14 @@ def main(argv=None):
                     fh.write(old)
     jobs = plan(chk.tier, chk.seed)
     results = run_jobs(jobs, par=6 if chk.tier == "quick" else 4)
-    stats = {"scenarios": 0, "no_edges": 0, "ties": 0, "several_answers": 0, "dperc": 0}
+    stats = {"scenarios": 0, "no_edges": 0, "ties": 0, "several_answers": 0, "dperc": 0, "directed_contact": 0}
     for (name, fam, kw), (recs, res) in zip(jobs, results):
         chk.add_tlc("Percolation %s" % name, res)
         t0 = time.time()
         bind(chk, name, recs, stats)
         print("  bound %-45s %7d scenarios, %5.1fs" % (name, len(recs), time.time() - t0), flush=True)
     chk.part("scenario classes", **stats)
-    for k in ("no_edges", "ties", "several_answers", "dperc"):
+    for k in ("no_edges", "ties", "several_answers", "dperc", "directed_contact"):
         if stats[k] == 0:
             raise MachineryFailure("vacuous run: no scenario of class %s" % k)
     chk.assumptions += [
@@ -320,7 +372,8 @@ def main(argv=None):
             "-> estimate_SIR_prob_size_from_dir_perc under 6 label/insertion-order variants; all (graph, bond-percolation outcome, p) on <=4 nodes -> "
             "complete decision trees of percolate_network / estimate_SIR_prob_size under the scripted random source; all (graph, transmission table) "
             "on <=4 nodes and all (graph, xi/zeta types, type table) on 3 nodes -> nonMarkov_directed_percolate_network / estimate_nonMarkov_SIR_prob_size "
-            "with recording callbacks; all (graph, durations, delays in {1,2,Inf} ticks) on <=3 nodes -> the _with_timing variants, and the Markovian-"
+            "with recording callbacks, the same on DIRECTED contact networks (nx.DiGraph; every arc set on 3 nodes x tables, and x durations/delays in "
+            "{1,2} ticks; seeded sample of 4-node digraphs x tables / types); all (graph, durations, delays in {1,2,Inf} ticks) on <=3 nodes -> the _with_timing variants, and the Markovian-"
             "realisable ones -> directed_percolate_network / estimate_directed_SIR_prob_size with scripted expovariate values"
             + ("; thorough adds seeded samples (GIVEN scenarios evaluated by TLC) of 5- and 6-node digraphs, 5-node bond/rule and 4/5-node typed/timing scenarios" if chk.tier == "thorough" else "")
             + ". evaluations = calls of the real functions; traces_validated = returned answers/graphs compared with a TLC record; "
